@@ -1,0 +1,50 @@
+//go:build verif
+
+package engine
+
+import (
+	"github.com/GuanceCloud/platypus/pkg/engine/runtime"
+	"github.com/GuanceCloud/platypus/pkg/token"
+)
+
+// VerifVisitHook, when set by a verification harness, receives the name of
+// every root script in the order EngineCallRefLinkAndCheck visits them.
+var VerifVisitHook func(name string)
+
+func verifVisit(name string) {
+	if h := VerifVisitHook; h != nil {
+		h(name)
+	}
+}
+
+// VerifLinkInOrder is EngineCallRefLinkAndCheck with the roots visited in the
+// caller-given order instead of map iteration order (names that are not in
+// allNg are skipped). It runs the same dfs with a fresh search path per root.
+func VerifLinkInOrder(order []string, allNg map[string]*runtime.Script,
+	allErrNg map[string]error) (map[string]*runtime.Script, map[string]error) {
+	retMap := map[string]*runtime.Script{}
+	retErrMap := map[string]error{}
+
+	for _, name := range order {
+		proc, ok := allNg[name]
+		if !ok {
+			continue
+		}
+		p := &param{
+			name:     name,
+			namePos:  token.InvalidLnColPos,
+			allNg:    allNg,
+			allErrNg: allErrNg,
+			retMap:   retMap,
+		}
+
+		sPath := newSearchPath()
+		if err := dfs(name, proc, sPath, p); err != nil {
+			retErrMap[name] = err
+		} else {
+			retMap[name] = proc
+		}
+	}
+
+	return retMap, retErrMap
+}
